@@ -1,6 +1,6 @@
 (* C05 — the assembler is total: any text yields an image or a diagnostic. *)
 From Coq Require Import String.
-From Lace Require Import Word Asm AsmTotal.
+From Lace Require Import Word Asm AsmTotal AsmSpan.
 Open Scope string_scope.
 Open Scope N_scope.
 
@@ -26,6 +26,14 @@ Proof.
   rewrite H in K. exact K.
 Qed.
 Print Assumptions C05_total_check.
+
+(** Every diagnostic points inside the source: its span (byte offset, byte length) ends at or
+    before the end of the text — for every text, feature setting and inherited table, whichever
+    stage reports it (lexer, preprocessor, parser, backpatching, emission). *)
+Theorem C05_span_inside : forall (feat : bool) (sym0 : symtab) (src : list N) d a n,
+  fst (assemble feat sym0 src) = Err d a n -> a + n <= bytes src.
+Proof. exact assemble_span. Qed.
+Print Assumptions C05_span_inside.
 
 (** The lexer makes progress: every token except end-of-input consumes at least one character
     (so the Rust loops, which have the same shape, terminate). *)
